@@ -509,6 +509,31 @@ func runC02(w *World, r *Report) {
 		}
 	}
 
+	r.Rule("C02.value-handlers-leave-their-input-alone", "the value-form handlers package compose installs in front of nodes and on edges (function literals of shape func(any) (any, error) built at Compile: static-value merge, map-to-input conversion, run-time checks) never write through the value they are given: what arrives may be the channel's shared 'no data' value — map[string]any(nil) for a node that fires without data — or a value other successors hold as well", 3)
+	{
+		n := 0
+		for _, fn := range w.RepoFuncs("compose") {
+			if fn.Parent() == nil {
+				continue
+			}
+			sig := fn.Signature
+			if sig.Recv() != nil || sig.Params().Len() != 1 || sig.Results().Len() != 2 {
+				continue
+			}
+			if _, isI := sig.Params().At(0).Type().Underlying().(*types.Interface); !isI || sig.Params().At(0).Type().String() != "any" && sig.Params().At(0).Type().String() != "interface{}" {
+				continue
+			}
+			if sig.Results().At(1).Type().String() != "error" || sig.Results().At(0).Type().String() != sig.Params().At(0).Type().String() {
+				continue
+			}
+			n++
+			ruleNoMutateParams(w, r, "C02.value-handlers-leave-their-input-alone", fn, nil)
+		}
+		if n < 3 {
+			undecidedf("C02.value-handlers-leave-their-input-alone: only %d value-form handler literals found in package compose", n)
+		}
+	}
+
 	r.Rule("C02.visits-all", "the loops that hand a finished node's output and dependencies to its successors (resolveCompletedTasks, updateValues, updateDependencies, createTasks) are left only when exhausted or with an error: a duplicate or data-less target met first must not end the delivery for the targets listed after it (shared with C01 / C03)", 4)
 	ruleLoopsTotal(w, r, "C02.visits-all", []*ssa.Function{
 		w.Fn("compose", "runner.resolveCompletedTasks"), w.Fn("compose", "channelManager.updateValues"), w.Fn("compose", "channelManager.updateDependencies"), w.Fn("compose", "runner.createTasks"),
@@ -517,6 +542,7 @@ func runC02(w *World, r *Report) {
 	shareRule(w, r, "C02.fanin-merge-pure", "assembling a fan-in node's input writes through none of the values being merged: in Invoke mode every successor of a node is handed the same map value, so a merge that accumulates into one predecessor's output gives a sibling entries from a node that never routed to it", 2, "C01", "C01.merge-pure")
 	shareRule(w, r, "C02.late-completions-fully-applied", "tasks that finish in the same step as a rerun / nested interrupt have their values AND their control dependencies folded into the channels, in every trigger mode: after the resume the join they routed to becomes ready", 2, "C03", "C03.completion-fully-applied")
 	shareRule(w, r, "C02.decided-marks-survive-save", "what an interrupt writes is the run's channel table itself: a DAG channel that holds no value still holds the marks of finished and skipped predecessors, and a selection of 'channels with values' loses them (the join waits for ever after the resume)", 2, "C05", "C05.nothing-dropped-at-save")
+	shareRule(w, r, "C02.end-value-returned-when-ready", "when END is ready its value is what the run returns, whatever else became ready in the same step: END's channel is read destructively, so an END set aside 'to be taken later' can never become ready again and the run ends 'no tasks to execute'", 1, "C01", "C01.end-short-circuit")
 
 	r.Rule("C02.workflow-flags", "noDirectDependency -> (noControl=true,noData=false); dependencyWithoutInput -> (false,true); default -> (false,false); workflow branches skipData=true", 4)
 	adr := w.Fn("compose", "WorkflowNode.addDependencyRelation")
